@@ -43,7 +43,13 @@ mechanism switched off (`Ex.tarOneV`, anchored to the executed bodies by `varian
 concrete archive the code refuses: `guardless_escapes` (the guard), `unchecked_name_escapes` (lexical test),
 `prefix_without_separator_escapes` (the separator of the prefix), `unchecked_linkname_escapes` (hard-link target test),
 `ignored_copy_error_is_silent` (returning the copy / close error), `remembered_parent_escapes` (walking every entry path
-from the root every time: a loop that remembers walked parents escapes after a skipped-kind entry). -/
+from the root every time: a loop that remembers walked parents escapes after a skipped-kind entry).
+The copy step of `extractFile` is in the executed model as system calls — `OpenFile`, the `write`s of `io.Copy`, the
+deferred `Close` — with destination-side faults (`Ex.tarOneF` / `zipOneF`, `Ex.Faults`): `copy_step_is_syscalls`,
+`copy_step_spec`, `write_close_fault_is_error` (a failing `write(2)` or `close(2)` is an error, no hypothesis),
+`dropped_close_result_is_silent` (contrast).  Of the error-clause theorems `extract_error_iff`, `tarOne_error_iff`,
+`zipOne_error_iff` are bookkeeping (marked so); the content is `step_error_tree_iff`, `syscall_error_iff`,
+`guard_error_iff`, `payload_error_resolving`, `write_close_fault_is_error`. -/
 namespace C19
 open Ex
 
@@ -349,7 +355,9 @@ theorem extract_reproduces_distinct_zip (root : P) (mask : Nat) (es : List Entry
   rw [heq] at hok ⊢
   exact extract_reproduces_distinct root mask es fs hr hroot hio hempty hdist hok
 
-/-- *when an error is returned* (both loops): the run returns an error iff some entry's iteration fails on the tree
+/-- BOOKKEEPING (holds of ANY loop body `one`: it is a property of the fold `extractWith`, used to chain the per-entry
+    theorems; the content about WHICH iterations fail is `step_error_tree_iff`, `syscall_error_iff`, `guard_error_iff`).
+    *when an error is returned* (both loops): the run returns an error iff some entry's iteration fails on the tree
     its predecessors left — the entries before it were all extracted, none after it is looked at -/
 theorem extract_error_iff (root : P) (mask : Nat) (es : List Entry) (fs : FS) :
     ((tarExtract fs root mask es).2 = false ↔ ∃ es1 e es2 fs1, es = es1 ++ e :: es2 ∧
@@ -358,7 +366,11 @@ theorem extract_error_iff (root : P) (mask : Nat) (es : List Entry) (fs : FS) :
       zipExtract fs root mask es1 = (fs1, true) ∧ (zipOne fs1 root mask e).2 = false) :=
   ⟨extractWith_ok_iff _ es fs, extractWith_ok_iff _ es fs⟩
 
-/-- *which entries fail* (tar): an iteration fails iff the header is unreadable, or the cleaned path is not strictly
+/-- BOOKKEEPING (`TarFails` lists the checks and calls of the loop body one by one — a restatement of `tarOne`'s case
+    list that names them, not a specification; the specification in terms of the archive and the tree before the
+    iteration — name leaves the root lexically, a link or file on the way, kind clash with what exists, short payload —
+    is `step_error_tree_iff` with `guard_error_iff` and `syscall_error_iff`).
+    *which entries fail* (tar): an iteration fails iff the header is unreadable, or the cleaned path is not strictly
     inside the root (at the root is allowed for a directory entry), or the guard meets a symbolic link, or
     `MkdirAll` fails, or — per kind — the one primitive call fails, or a regular file's payload cannot be copied in
     full (`TarFails`, every disjunct is a check or a call of the Go loop body) -/
@@ -366,7 +378,8 @@ theorem tarOne_error_iff (fs : FS) (root : P) (mask : Nat) (e : Entry) :
     (tarOne fs root mask e).2 = false ↔ TarFails fs root mask e :=
   tarOne_fails_iff fs root mask e
 
-/-- *which entries fail* (zip): as for tar, without hard links; an entry that cannot be opened (`Kind.corrupt`:
+/-- BOOKKEEPING (as `tarOne_error_iff`; the specification is `step_error_tree_iff`).
+    *which entries fail* (zip): as for tar, without hard links; an entry that cannot be opened (`Kind.corrupt`:
     unsupported compression method, bad local header) fails before anything is created; a symbolic-link entry whose
     payload (the target) cannot be read fails before anything is created; every other non-directory entry is a file -/
 theorem zipOne_error_iff (fs : FS) (root : P) (mask : Nat) (e : Entry) :
@@ -1312,6 +1325,88 @@ theorem remembered_parent_escapes :
     (tarExtractR worldFs demoRoot 0o777 (attackGhost.take 1)).1.get [[100], [115]] = none ∧
     (∀ fs root mask e, (tarOneVet [] fs root mask e).1 = tarOneR fs root mask e) :=
   ⟨by decide, by decide, by decide, by decide, by decide, by decide, by decide, tarOneVet_nil⟩
+
+/-! ## The copy step as system calls: failing `write(2)` and `close(2)`
+
+`Ex.tarOneF` / `Ex.zipOneF` (Model/ExtractR.lean) are the loop bodies with `extractFile` spelled out as `OpenFile`, the
+`write`s of `io.Copy` and the deferred `Close` (`Ex.extractFileR`: `openTruncR`, `ioCopy`, `writeFd`, `deferredClose`), under
+destination-side faults `Ex.Faults`: a write limit (the write that would cross it stores the bytes up to it and fails)
+and paths whose `close` fails.  The driver executes these bodies for every line; the write-limit (`w:`) and close-fault
+(`cf:`) lines are answered by them.  `Entry.short` is the READER-side fault only (truncated stream, checksum). -/
+
+/-- *the loops with the copy step as system calls are the loops of the other theorems on the entries as the copy step
+    leaves them* (payload = the bytes that reached the file, `short` = the copy step was an error), and without faults
+    they are those loops themselves — so every theorem about `tarExtractR` / `zipExtractR` speaks about them -/
+theorem copy_step_is_syscalls (flt : Faults) (fs : FS) (root : P) (mask : Nat) (es : List Entry) :
+    tarExtractF flt fs root mask es = tarExtractR fs root mask (es.map (tarFaulted flt root)) ∧
+    zipExtractF flt fs root mask es = zipExtractR fs root mask (es.map (zipFaulted flt root)) ∧
+    tarExtractF {} fs root mask es = tarExtractR fs root mask es ∧
+    zipExtractF {} fs root mask es = zipExtractR fs root mask es :=
+  ⟨tarExtractF_eq flt fs root mask es, zipExtractF_eq flt fs root mask es, tarExtractF_nofault fs root mask es,
+   zipExtractF_nofault fs root mask es⟩
+
+/-- *what the copy step does*: the bytes that reach the file are the readable payload cut at the write limit; the step
+    is an error when the reader reported one, a write hit the limit, or — everything written — the close failed
+    (`if closeErr != nil && err == nil { err = closeErr }`) -/
+theorem copy_step_spec (flt : Faults) (path : P) (e : Entry) :
+    (afterCopy flt path e).data = (match flt.writeLimit with | some k => e.data.take k | none => e.data) ∧
+    (((∃ k, flt.writeLimit = some k ∧ e.data.length > k) ∨ flt.closeFails.contains path = true ∨ e.short = true) →
+      (afterCopy flt path e).short = true) ∧
+    ((afterCopy flt path e).short = true →
+      (∃ k, flt.writeLimit = some k ∧ e.data.length > k) ∨ flt.closeFails.contains path = true ∨ e.short = true) := by
+  refine ⟨afterCopy_data flt path e, afterCopy_short flt path e, ?_⟩
+  unfold afterCopy ioCopy deferredClose
+  cases hw : flt.writeLimit with
+  | none =>
+    cases hs : e.short <;> cases hc : flt.closeFails.contains path <;> simp_all
+  | some k =>
+    by_cases hl : e.data.length > k
+    · intro _; exact Or.inl ⟨k, rfl, hl⟩
+    · simp only [gt_iff_lt] at hl ⊢
+      simp only [hl, ↓reduceIte]
+      cases hs : e.short <;> cases hc : flt.closeFails.contains path <;> simp_all
+
+/-- **a failing `write` and a failing `close` are errors** (second clause, the destination side; every file system,
+    root, mask and archive, no hypothesis): if a regular-file entry's readable payload is longer than the write limit,
+    or the close of the file at its path fails, the extraction — tar and zip — does not return nil -/
+theorem write_close_fault_is_error (flt : Faults) (fs : FS) (root : P) (mask : Nat) (es : List Entry) (e : Entry)
+    (he : e ∈ es) (hk : e.kind = .reg)
+    (hf : (∃ k, flt.writeLimit = some k ∧ e.data.length > k) ∨ flt.closeFails.contains (cleanJoin root e.name) = true) :
+    (tarExtractF flt fs root mask es).2 = false ∧ (zipExtractF flt fs root mask es).2 = false := by
+  have hs : (afterCopy flt (cleanJoin root e.name) e).short = true :=
+    afterCopy_short flt _ e (hf.elim Or.inl (fun h => Or.inr (Or.inl h)))
+  constructor
+  · refine extractWith_false_of_mem (fun fs e => tarOneF flt fs root mask e) e (fun fs' => ?_) es he fs
+    rw [tarOneF_eq]
+    have : tarFaulted flt root e = afterCopy flt (cleanJoin root e.name) e := by simp [tarFaulted, hk]
+    rw [this]
+    exact tarOneG_short true fs' root mask _ hs hk
+  · refine extractWith_false_of_mem (fun fs e => zipOneF flt fs root mask e) e (fun fs' => ?_) es he fs
+    rw [zipOneF_eq]
+    have : zipFaulted flt root e = afterCopy flt (cleanJoin root e.name) e := by simp [zipFaulted, hk]
+    rw [this]
+    exact zipOneG_short true fs' root mask _ hs (by show e.kind ≠ .dir; rw [hk]; decide)
+
+/-- the file `a` with payload 1 2 3 -/
+def threeBytes : List Entry := [{ kind := .reg, name := [97], data := [1, 2, 3] }]
+
+/-- **the result of `Close` must not be dropped** (contrast; `seeded/own-c19-15`, `-16`): with the close of `/d/a` failing
+    and everything written, `extractFile` without the deferred-close logic reports success where the code's reports an
+    error — the same file is there in both; and the faults are real: the limit 2 leaves two bytes and an error, no fault
+    leaves three bytes and no error -/
+theorem dropped_close_result_is_silent :
+    (extractFileNoClose { closeFails := [[[100], [97]]] } worldFs [[100], [97]] 0o644 [1, 2, 3] false).2 = true ∧
+    (extractFileR { closeFails := [[[100], [97]]] } worldFs [[100], [97]] 0o644 [1, 2, 3] false).2 = false ∧
+    (extractFileR { closeFails := [[[100], [97]]] } worldFs [[100], [97]] 0o644 [1, 2, 3] false).1.inodes[1]? =
+      some { data := [1, 2, 3], mode := 0o644 } ∧
+    (tarExtractF { closeFails := [[[100], [97]]] } worldFs demoRoot 0o777 threeBytes).2 = false ∧
+    (zipExtractF { closeFails := [[[100], [97]]] } worldFs demoRoot 0o777 threeBytes).2 = false ∧
+    (tarExtractF { writeLimit := some 2 } worldFs demoRoot 0o777 threeBytes).2 = false ∧
+    (tarExtractF { writeLimit := some 2 } worldFs demoRoot 0o777 threeBytes).1.inodes[1]? =
+      some { data := [1, 2], mode := 0o644 } ∧
+    (tarExtractF {} worldFs demoRoot 0o777 threeBytes).2 = true ∧
+    (tarExtractF { writeLimit := some 3 } worldFs demoRoot 0o777 threeBytes).2 = true := by
+  decide
 
 /-- the hypotheses of the spelled theorems hold together: from `/e` the spelling `../d/.` names the destination `/d` of
     `worldFs` -/
